@@ -119,4 +119,84 @@ MUT = {
                 self.loop.create_task(self._run_func(set(inputs)))
                 return""", 'C08'),
  'c08_half_timeout_after_first': ('aiuti/asyncio.py', "        return self.loop.create_task(aio.wait_for(coro, self.timeout))", "        self._n = getattr(self, '_n', 0) + 1\n        return self.loop.create_task(aio.wait_for(coro, self.timeout if self._n < 3 else self.timeout / 2))", 'C08'),
+ 'c02_unlock_order': ('aiuti/filelock.py', """        if not self.is_locked:
+            return
+
+        # A forced release""", """        if not self.is_locked:
+            return
+        try:
+            self._thread_lock.release()
+        except RuntimeError:
+            pass
+        self._thread_lock.acquire(False)
+
+        # A forced release""", 'C02'),
+ 'c02_lock_sh': ('aiuti/filelock.py', "fcntl.flock(fd,  fcntl.LOCK_EX | (0 if block else fcntl.LOCK_NB))", "fcntl.flock(fd,  fcntl.LOCK_SH | (0 if block else fcntl.LOCK_NB))", 'C02'),
+ 'c02_no_thread_lock': ('aiuti/filelock.py', """        if not self._thread_lock.acquire(blocking, timeout):
+            _logger.debug('Timeout on acquiring thread lock %s on %s', lid, fn)
+            return False
+""", """        self._thread_lock.acquire(False)
+""", 'C02'),
+ 'c02_islocked_early': ('aiuti/filelock.py', """        if self.is_locked:
+            return True
+
+        start_time = time.time()""", """        if self.is_locked or os.path.exists(str(self._lock_file) + '.held'):
+            return True
+
+        start_time = time.time()""", 'C02'),
+ 'c02_fd_shared': ('aiuti/filelock.py', """        try:
+            fd = os.open(self._lock_file, self._FD_OPEN_MODE)
+        except OSError:
+            return""", """        try:
+            fd = _FDS.get(self._lock_file) or _FDS.setdefault(self._lock_file, os.open(self._lock_file, self._FD_OPEN_MODE))
+        except OSError:
+            return""", 'C02'),
+ 'c12_counter_not_undone': ('aiuti/filelock.py', """        def _cleanup_thread_lock() -> None:
+            self._decrement_lock_counter()
+            self._thread_lock.release()""", """        def _cleanup_thread_lock() -> None:
+            self._thread_lock.release()""", 'C12'),
+ 'c12_thread_lock_kept_on_timeout': ('aiuti/filelock.py', """                elif 0 <= timeout < time.time() - start_time:
+                    _logger.debug('Timeout on acquiring lock %s on %s', lid, fn)
+                    _cleanup_thread_lock()
+                    return False""", """                elif 0 <= timeout < time.time() - start_time:
+                    _logger.debug('Timeout on acquiring lock %s on %s', lid, fn)
+                    self._decrement_lock_counter()
+                    return False""", 'C12'),
+ 'c12_fd_leak_on_failed_flock': ('aiuti/filelock.py', """        except (IOError, OSError):
+            os.close(fd)
+        else:""", """        except (IOError, OSError):
+            pass
+        else:""", 'C12'),
+ 'c12_block_always': ('aiuti/filelock.py', "self._acquire(block=blocking and timeout < 0)", "self._acquire(block=blocking)", 'C12'),
+ 'c12_release_unheld_raises': ('aiuti/filelock.py', """        if not self.is_locked:
+            return
+
+        # A forced release""", """        if not self.is_locked:
+            self._thread_lock.release()
+            return
+
+        # A forced release""", 'C12'),
+ 'c12_unfix_force': ('aiuti/filelock.py', "        levels = max(1, self._lock_counter) if force else 1", "        levels = 1", 'C12'),
+ 'c12_timeout_off_by_poll': ('aiuti/filelock.py', "                elif 0 <= timeout < time.time() - start_time:", "                elif 0 <= timeout + 2 * poll_interval < time.time() - start_time:", 'C12'),
+ 'c13_soft_marker': ('aiuti/filelock.py', """        try:
+            fd = os.open(self._lock_file, self._FD_OPEN_MODE)
+        except OSError:
+            return""", """        try:
+            mfd = os.open(str(self._lock_file) + '.marker', os.O_RDWR | os.O_CREAT | os.O_EXCL)
+            os.close(mfd)
+        except OSError:
+            return
+        try:
+            fd = os.open(self._lock_file, self._FD_OPEN_MODE)
+        except OSError:
+            os.unlink(str(self._lock_file) + '.marker')
+            return""", 'C13'),
+ 'c13_unlink_on_release': ('aiuti/filelock.py', """        try:
+            self._unlock(fd)
+        finally:
+            os.close(fd)""", """        try:
+            os.unlink(self._lock_file)
+            self._unlock(fd)
+        finally:
+            os.close(fd)""", 'C13'),
 }
